@@ -156,6 +156,8 @@ type Machine interface {
 	Disasm() (line []byte, panicked interface{})
 	SetOnWDM(f func(byte))
 	SetOnPC(m map[uint32]func())
+	// TriggerIRQ calls the interpreter's own TriggerIRQ (masked by the I flag at the time of the call).
+	TriggerIRQ()
 }
 
 // ---- primary interpreter
@@ -207,6 +209,7 @@ func (p *Pri) Disasm() (o []byte, pn interface{}) {
 	o = p.C.DisassembleCurrentPC(nil)
 	return
 }
+func (p *Pri) TriggerIRQ()                 { p.C.TriggerIRQ() }
 func (p *Pri) SetOnWDM(f func(byte))       { p.C.OnWDM = f }
 func (p *Pri) SetOnPC(m map[uint32]func()) { p.C.OnPC = m }
 func (p *Pri) FlagBytes() [8]byte          { c := p.C; return [8]byte{c.C, c.Z, c.I, c.D, c.X, c.M, c.V, c.N} }
@@ -260,6 +263,7 @@ func (p *Alt) Disasm() (o []byte, pn interface{}) {
 	o = b.Bytes()
 	return
 }
+func (p *Alt) TriggerIRQ()                 { p.C.TriggerIRQ() }
 func (p *Alt) SetOnWDM(f func(byte))       { p.C.OnWDM = f }
 func (p *Alt) SetOnPC(m map[uint32]func()) { p.C.OnPC = m }
 func (p *Alt) FlagBytes() [8]byte          { c := p.C; return [8]byte{c.C, c.Z, c.I, c.D, c.X, c.M, c.V, c.N} }
